@@ -614,6 +614,84 @@ pub fn sanamb(shard: usize, npieces: usize, with_pinner: bool, f: Sink) {
 }
 
 // ---------------------------------------------------------------------------------------------
+// SANMANY: many own pieces of one kind that can all reach one target square
+
+/// shard = target square
+pub const SANMANY_SHARDS: usize = 64;
+
+/// For the target square `shard` and each kind T in {N, B, R, Q}: the candidate origin squares
+/// are the knight-jump squares (N) or, per line direction of T, the squares at distance 1 and 2
+/// (sliders; at most one piece per direction so that nothing is blocked). Every subset of the
+/// origins with at most 10 pieces (knights: all 2^8; sliders: per direction {none, near, far}) is
+/// populated with own pieces of kind T; optionally an enemy pawn or nothing on the target.
+pub fn sanmany(shard: usize, f: Sink) {
+    let t = shard;
+    let (tf, tr) = (file_of(t), rank_of(t));
+    for &(wk, bk) in &KING_PLACEMENTS[..1] {
+        if wk == t || bk == t {
+            continue;
+        }
+        for stm in 0..2u8 {
+            let own = stm;
+            let opp = 1 - stm;
+            for target_content in [EMPTY, mk(opp, N)] {
+                let mut base = Pos::empty();
+                base.stm = stm;
+                base.b[wk] = K;
+                base.b[bk] = K | BLACK;
+                base.b[t] = target_content;
+                // knights: every subset of the jump squares
+                let js: Vec<usize> = KN.iter().filter(|(df, dr)| on(tf + df, tr + dr)).map(|(df, dr)| sq(tf + df, tr + dr)).filter(|s| *s != wk && *s != bk).collect();
+                for sub in 0..(1u32 << js.len()) {
+                    if sub.count_ones() < 2 {
+                        continue;
+                    }
+                    let mut p = base;
+                    for (i, &s) in js.iter().enumerate() {
+                        if sub >> i & 1 != 0 {
+                            p.b[s] = mk(own, N);
+                        }
+                    }
+                    emit_if_valid(&p, f);
+                }
+                // sliders: per direction none / distance 1 / distance 2
+                for (kind_, dirs) in [(B, &DIAG[..]), (R, &ORTH[..]), (Q, &KG[..])] {
+                    let n = dirs.len();
+                    for code in 0..3usize.pow(n as u32) {
+                        let mut p = base;
+                        let mut c = code;
+                        let mut cnt = 0;
+                        let mut ok = true;
+                        for &(df, dr) in dirs {
+                            let choice = c % 3;
+                            c /= 3;
+                            if choice == 0 {
+                                continue;
+                            }
+                            let (x, y) = (tf + df * choice as i32, tr + dr * choice as i32);
+                            if !on(x, y) || p.b[sq(x, y)] != EMPTY {
+                                ok = false;
+                                break;
+                            }
+                            // the square between must be empty for distance 2
+                            if choice == 2 && p.b[sq(tf + df, tr + dr)] != EMPTY {
+                                ok = false;
+                                break;
+                            }
+                            p.b[sq(x, y)] = mk(own, kind_);
+                            cnt += 1;
+                        }
+                        if ok && cnt >= 3 {
+                            emit_if_valid(&p, f);
+                        }
+                    }
+                }
+            }
+        }
+    }
+}
+
+// ---------------------------------------------------------------------------------------------
 // MATERIAL: bishops / knights of both colours on 8 fixed squares of mixed colour
 
 pub const MATERIAL_SHARDS: usize = 625; // 5^4 for the first four squares
